@@ -20,6 +20,7 @@ package limiters
 
 import (
 	"context"
+	"errors"
 	"sync"
 	"time"
 )
@@ -36,6 +37,10 @@ import (
 //
 // A BucksetSet without a New function assigned is no-op: Take and TakeContext
 // always succeed and Release does nothing.
+// ErrTooManyBuckets is returned by BucketSet.TakeContext when the bucket table
+// is full and no stale bucket could be evicted.
+var ErrTooManyBuckets = errors.New("limiters: too many buckets")
+
 type BucketSet struct {
 	// New function is used to construct underlying L instances.
 	//
@@ -125,6 +130,9 @@ func (r *BucketSet) Take(key string) bool {
 	}
 
 	bucket := r.take(key)
+	if bucket == nil {
+		return false
+	}
 	return bucket.Take()
 }
 
@@ -149,5 +157,8 @@ func (r *BucketSet) TakeContext(ctx context.Context, key string) error {
 	}
 
 	bucket := r.take(key)
+	if bucket == nil {
+		return ErrTooManyBuckets
+	}
 	return bucket.TakeContext(ctx)
 }
